@@ -60,7 +60,8 @@ static ull hashOf(ull key)
 	default: return key * G + g_param;
 	}
 }
-struct HF { size_t operator()(const uint64_t& k) const { ++g_hashCalls; return size_t(hashOf(k)); } };
+static long g_throwBudget = -1;   // >= 0: the hash functor throws once this many further calls have been made
+struct HF { size_t operator()(const uint64_t& k) const { if (g_throwBudget == 0) throw std::runtime_error("hash"); if (g_throwBudget > 0) --g_throwBudget; ++g_hashCalls; return size_t(hashOf(k)); } };
 
 // HashTraitsStd clamps the start bucket count to >= 8; this shadows the getter so that tables of 1, 2, 4 buckets exist too
 template<class HashBucket> struct TraitsL : HashTraitsStd<uint64_t, HF, std::equal_to<uint64_t>, HashBucket>
@@ -294,19 +295,31 @@ int main()
 		{
 			ull h; is >> h; printf("%u %u %llu %llu\n", unsigned(O2::pvCalcShortHash(size_t(h))), unsigned(P4::pvCalcShortHash(size_t(h))), ull(O2::pvGetProbeShift(size_t(h & 63))), ull(P4::pvGetProbeShift(size_t(h & 63))));
 		}
-		else if (cmd == "tbl")
-		{	// real HashSet<.., HashBucketOpen2N2<3>> with 2^L buckets, keys 1..n with the given hashes, Reserve to 2^newL, dump the layout
+		else if (cmd == "tbl" || cmd == "tbl2")
+		{	// real HashSet<.., HashBucketOpen2N2<3>>: 2^L0 buckets, keys 1..n with the given hashes, optional removals, Reserve to 2^L1
+			// (optionally with a hash functor that throws after `budget` calls: the old generation stays chained), optional Reserve to
+			// 2^L2 (relocates the older generation L0 -> L2 directly, then L1 -> L2); dump the final layout + number of full-hash calls
 			typedef TraitsL<HashBucketOpen2N2<>> Traits;
 			typedef HashSet<uint64_t, Traits> Set;
-			ull L, newL, h; is >> L >> newL; g_mode = 9; g_table.assign(1, 0); while (is >> h) g_table.push_back(h);
+			ull L, L1, L2 = 0, nrem = 0, h; long long budget = -1;
+			is >> L >> L1; if (cmd == "tbl2") is >> L2 >> budget >> nrem;
+			std::vector<ull> rem; for (ull k = 0; k < nrem; ++k) { is >> h; rem.push_back(h); }
+			g_mode = 9; g_table.assign(1, 0); while (is >> h) g_table.push_back(h);
+			g_throwBudget = -1;
 			Set set{Traits(size_t(L))};
 			bool bad = false;
 			for (ull k = 1; k < g_table.size() && !bad; ++k) { set.Insert(k); if (set.mBuckets->GetLogCount() != L) bad = true; }
 			if (bad) { puts("grew-early"); continue; }
-			Traits t; set.Reserve(t.CalcCapacity(size_t(1) << newL, 3));
+			for (ull k : rem) set.Remove(k);
+			Traits t; ull before = g_hashCalls;
+			g_throwBudget = long(budget); set.Reserve(t.CalcCapacity(size_t(1) << L1, 3)); g_throwBudget = -1;
+			size_t gens1 = 0; for (auto* bk = set.mBuckets; bk != nullptr; bk = bk->GetNextBuckets()) ++gens1;
+			ull finalL = L1;
+			if (L2 > 0) { set.Reserve(t.CalcCapacity(size_t(1) << L2, 3)); finalL = L2; }
+			ull calls = g_hashCalls - before;
 			auto& bks = *set.mBuckets;
-			if (bks.GetLogCount() != newL || bks.GetNextBuckets() != nullptr) { puts("unexpected-size"); continue; }
-			std::string out;
+			if (bks.GetLogCount() != finalL || (L2 > 0 && bks.GetNextBuckets() != nullptr)) { puts("unexpected-size"); continue; }
+			std::string out = "calls=" + std::to_string(calls) + " gens=" + std::to_string(gens1) + " ";
 			for (size_t i = 0; i < bks.GetCount(); ++i)
 			{
 				auto& b = bks[i]; size_t c = b.pvGetCount();
@@ -317,6 +330,38 @@ int main()
 					out += "|" + std::to_string(b.mHashData.shortHashes[j]);
 					if (j >= 3 - c) out += "," + std::to_string(b.mHashData.hashProbes[j]) + "," + std::to_string((&b.mItems)[j]);
 				}
+				out += ";";
+			}
+			puts(out.c_str());
+		}
+		else if (cmd == "tp4")
+		{	// real HashSet<.., HashBucketLimP4<>>: 2^L buckets, keys 1..n, removals, Reserve to 2^L1; dump layout incl. memPoolIndex (WasFull)
+			typedef TraitsL<HashBucketLimP4<>> Traits;
+			typedef HashSet<uint64_t, Traits> Set;
+			typedef Set::Bucket B;
+			ull hc, L, L1, nrem, h; is >> hc >> L >> L1 >> nrem;
+			if (hc != B::hashCount) { puts("wrong-build"); continue; }
+			std::vector<ull> rem; for (ull k = 0; k < nrem; ++k) { is >> h; rem.push_back(h); }
+			g_mode = 9; g_table.assign(1, 0); while (is >> h) g_table.push_back(h);
+			g_throwBudget = -1;
+			Set set{Traits(size_t(L))};
+			bool bad = false;
+			for (ull k = 1; k < g_table.size() && !bad; ++k) { set.Insert(k); if (set.mBuckets->GetLogCount() != L) bad = true; }
+			if (bad) { puts("grew-early"); continue; }
+			for (ull k : rem) set.Remove(k);
+			Traits t; ull before = g_hashCalls;
+			set.Reserve(t.CalcCapacity(size_t(1) << L1, 4));
+			ull calls = g_hashCalls - before;
+			auto& bks = *set.mBuckets;
+			if (bks.GetLogCount() != L1 || bks.GetNextBuckets() != nullptr) { puts("unexpected-size"); continue; }
+			std::string out = "calls=" + std::to_string(calls) + " min=" + std::to_string(B::minMemPoolIndex) + " ";
+			for (size_t i = 0; i < bks.GetCount(); ++i)
+			{
+				auto& b = bks[i]; size_t c = b.pvGetCount(); size_t mpi = b.pvGetMemPoolIndex();
+				if (c == 0 && mpi == B::minMemPoolIndex) continue;
+				out += std::to_string(i) + ":" + std::to_string(mpi) + (b.WasFull() ? "W" : "w");
+				for (size_t j = 0; j < B::hashCount; ++j) out += "|" + std::to_string(b.mShortHashes[j]);
+				for (size_t j = 0; j < c; ++j) out += "," + std::to_string(b.mPtrState.GetPointer()[j]);
 				out += ";";
 			}
 			puts(out.c_str());
